@@ -5,6 +5,7 @@ set -e
 D=$1
 git -C $D/repo checkout -q --detach $(git -C /repo rev-parse HEAD)
 rsync -a --exclude out --exclude harness/target --exclude .git --exclude 'seeded/*/meta.json' --exclude 'seeded/*/caught_by_*' /verif/ $D/verif/
+rsync -a --ignore-existing /verif/seeded/ $D/verif/seeded/
 sed -i "s#\"/repo/#\"$D/repo/#g; s#= \"/repo/#= \"$D/repo/#g" $D/verif/harness/Cargo.toml
 grep -c "$D/repo" $D/verif/harness/Cargo.toml
 (cd $D/verif/harness && cargo build 2>&1 | tail -1)
